@@ -327,41 +327,89 @@ def digits(chk, F):
     if len(lex) != 1:
         raise AnchorLost("lexer not found")
     fn = lex[0]
-    h = F.hir_of(fn)
+    # the lexer and the private helpers that only it calls (a digit loop may have been moved into one)
+    hs = F.hirs_of(F.inlined(fn, keep=("owned-helpers-only", "Option::<T>", "Iterator", "bool>::then", "FnOnce", "FnMut", "Fn::call")))
     n = 0
-    for m in hir_walk(h["body"]):
-        if m.get("k") != "Match":
-            continue
-        for a in m["arms"]:
-            pats = a["pat"]["alts"] if a["pat"]["pk"] == "or" else [a["pat"]]
-            kinds = set()
-            for p in pats:
-                q = p
-                if q["pk"] == "range":
-                    lo, hi = q.get("lo", {}).get("v"), q.get("hi", {}).get("v")
-                    if isinstance(lo, str) and isinstance(hi, str) and (lo + hi) in ("09", "af", "AF", "07", "01"):
-                        kinds.add("digit")
-                elif q["pk"] == "expr" and q["e"].get("lit") == "char":
-                    if q["e"]["v"] in ("_", " "):
-                        kinds.add("sep")
-                    elif q["e"]["v"] in "01":
-                        kinds.add("digit")
-            if not kinds or a.get("guard"):
-                continue
-            body = a["body"]
-            pushes = H.method_calls(body, "push")
-            nexts = [c for c in H.method_calls(body, "next")]
-            txt = H.expr_str(body, 120)
-            # only arms inside literal loops: they call self.0.next()
-            if not nexts:
-                continue
-            n += 1
-            if kinds == {"digit"}:
-                ok = len(pushes) == 1 and "next()" in H.expr_str(pushes[0]["args"][0])
-                chk.decide(ok, "literal-digits", "rink_core::text_query lexer", "digit-arm-pushes", "%s:%d" % (fn.file, a["line"]),
-                           "a consumed digit is pushed into the literal buffer", "a digit arm of the number lexer consumes a character without pushing it (`%s`): the literal is parsed one digit short" % txt)
-            elif "sep" in kinds:
-                # (also a mixed digit|separator arm: whatever it does is wrong for one of the two kinds)
-                chk.decide(not pushes and kinds == {"sep"}, "literal-digits", "rink_core::text_query lexer", "separator-arm-discards", "%s:%d" % (fn.file, a["line"]), "digit separators are dropped", "an arm that matches a digit separator (`_`, U+2009) pushes it into the literal buffer (`%s`): the separator is counted as a digit position" % txt)
-    if n < 8:
-        chk.anchor_lost("literal-digits", "rink_core::text_query lexer", "only %d digit/separator arms recognised in the number lexer (expected >= 8)" % n)
+    SEPS = ("_", "\u2009", " ")
+
+    def char_lits(e):
+        return [x["lit"]["v"] for x in hir_walk(e) if x.get("k") == "Lit" and x["lit"].get("lit") == "char"] + \
+               [x["e"]["v"] for x in hir_walk(e) if x.get("pk") == "expr" and isinstance(x.get("e"), dict) and x["e"].get("lit") == "char"]
+
+    def decide_branch(what, body, line, txt):
+        """a branch of a literal loop that consumes a character: it pushes it (a digit) or the branch is for separators only"""
+        nonlocal n
+        pushes = H.method_calls(body, "push")
+        nexts = H.method_calls(body, "next")
+        if not nexts:
+            return
+        n += 1
+        lits = what["lits"]
+        sep_only = bool(lits) and all(l in SEPS for l in lits) and not what["ranges"] and not what["calls"]
+        has_sep = any(l in ("_", "\u2009") for l in lits)
+        if pushes:
+            if has_sep:
+                chk.decide(False, "literal-digits", "rink_core::text_query lexer", "separator-arm-discards", "%s:%d" % (fn.file, line), "",
+                           "an arm that matches a digit separator (`_`, U+2009) pushes it into the literal buffer (`%s`): the separator is counted as a digit position" % txt)
+            else:
+                chk.decide(len(pushes) == 1, "literal-digits", "rink_core::text_query lexer", "digit-arm-pushes", "%s:%d" % (fn.file, line),
+                           "a consumed digit is pushed into the literal buffer", "a digit arm of the number lexer pushes %d times (`%s`)" % (len(pushes), txt))
+        elif sep_only:
+            chk.decide(True, "literal-digits", "rink_core::text_query lexer", "separator-arm-discards", "%s:%d" % (fn.file, line), "digit separators are dropped", "")
+        else:
+            chk.decide(False, "literal-digits", "rink_core::text_query lexer", "digit-arm-pushes", "%s:%d" % (fn.file, line), "",
+                       "a digit arm of the number lexer consumes a character without pushing it (`%s`): the literal is parsed one digit short" % txt)
+
+    for h in hs:
+        for m in hir_walk(h["body"]):
+            if m.get("k") == "Match" and m.get("src") == "Normal":
+                for a in m["arms"]:
+                    pats = a["pat"]["alts"] if a["pat"]["pk"] == "or" else [a["pat"]]
+                    ranges = [q for q in pats if q["pk"] == "range"]
+                    lits = [q["e"]["v"] for q in pats if q["pk"] == "expr" and q["e"].get("lit") == "char"]
+                    if not (ranges or lits) or a.get("guard"):
+                        continue
+                    # only the digit ranges / separators of number literals (other char matches of the lexer are not literal loops)
+                    digit_ranges = [q for q in ranges if isinstance(q.get("lo", {}).get("v"), str) and isinstance(q.get("hi", {}).get("v"), str)
+                                    and (q["lo"]["v"] + q["hi"]["v"]) in ("09", "af", "AF", "07", "01")]
+                    if not digit_ranges and not all(l in SEPS or l in "01" for l in lits):
+                        continue
+                    decide_branch({"lits": lits, "ranges": digit_ranges, "calls": []}, a["body"], a["line"], H.expr_str(a["body"], 120))
+            if m.get("k") == "Loop":
+                # `if is_digit(c) { next(); push(c) } else if c == '_' || c == '\u{2009}' { next() } else { break }`: only loops that
+                # have a branch on a digit predicate (a closure/function parameter applied to the character, or char::is_digit & co.)
+                def digit_pred(c_):
+                    if c_.get("k") == "Call" and H.local_name(c_["f"]):
+                        return True
+                    return c_.get("k") == "MethodCall" and c_["name"] in ("is_digit", "is_ascii_digit", "is_ascii_hexdigit")
+                def own(e_):
+                    """nodes of this loop's body, not those of loops nested in it"""
+                    if isinstance(e_, dict):
+                        yield e_
+                        for k_, v_ in e_.items():
+                            if isinstance(v_, dict) and v_.get("k") == "Loop":
+                                continue
+                            if isinstance(v_, (dict, list)):
+                                yield from own(v_)
+                    elif isinstance(e_, list):
+                        for x_ in e_:
+                            if isinstance(x_, dict) and x_.get("k") == "Loop":
+                                continue
+                            yield from own(x_)
+                mine = list(own(m["body"]))
+                if not any(e.get("k") == "If" and e["cond"].get("k") != "Let" and any(digit_pred(c_) for c_ in hir_walk(e["cond"])) and H.method_calls(e["then"], "push")
+                           for e in mine):
+                    continue
+                for e in mine:
+                    if e.get("k") != "If" or e["cond"].get("k") == "Let":
+                        continue
+                    cond = e["cond"]
+                    calls = [c for c in hir_walk(cond) if c.get("k") in ("Call", "MethodCall")]
+                    lits = char_lits(cond)
+                    if not (lits or calls):
+                        continue
+                    if not H.method_calls(e["then"], "next") or any(x.get("k") == "Loop" for x in hir_walk(e["then"])):
+                        continue
+                    decide_branch({"lits": lits, "ranges": [], "calls": calls}, e["then"], e["line"], H.expr_str(e["then"], 120))
+    if n < 2:
+        chk.anchor_lost("literal-digits", "rink_core::text_query lexer", "only %d digit/separator branches recognised in the number lexer (expected >= 2)" % n)
